@@ -136,10 +136,28 @@ struct tight_copy {
     tight_copy(const CharT* s, std::size_t len) : p(new CharT[len]), n(len) { std::copy(s, s + len, p.get()); }
 };
 
+// the 'x' form hands the library a view into the FRONT of a larger buffer: the 8 code units behind the view are
+// all one "adversarial follower" chosen from the content (hex digits, 'x', ':', '.', '/', '%', '=', UTF-8 continuation
+// bytes / a trail surrogate, ...), so that code which looks one unit past the end of its input sees something
+// that changes its answer instead of the NUL a std::string would show it
+template <class CharT>
+struct padded_copy {
+    std::unique_ptr<CharT[]> p; std::size_t n;
+    padded_copy(const CharT* s, std::size_t len) : p(new CharT[len + 8]), n(len) {
+        std::copy(s, s + len, p.get());
+        static const unsigned tr[] = { '4', 'A', 'x', ':', '.', '/', '%', '=', 0x80, 0xA9, 0xBF, '0', 'f', '|', '\\', '?', '#', '@', 0xDC00, 'X', '1', ']' };
+        std::size_t h = len * 7u;
+        for (std::size_t i = 0; i < len; ++i) h = h * 131u + static_cast<std::size_t>(static_cast<unsigned>(s[i]) & 0xFFFFu);
+        const unsigned t = tr[h % (sizeof(tr) / sizeof(tr[0]))];
+        for (std::size_t i = 0; i < 8; ++i) p[len + i] = static_cast<CharT>(t);
+    }
+};
+
 // S is bound to the argument in the requested encoding and form, then CALL is evaluated
 #define WITH_FORMS(STR, CT, S, CALL) \
     switch (k_.form) { \
     case 'v': { const tight_copy<CT> tc_((STR).data(), (STR).length()); const view_like<CT> S{ tc_.p.get(), tc_.n }; ArmGuard ag_; CALL; } break; \
+    case 'x': { const padded_copy<CT> pc_((STR).data(), (STR).length()); const view_like<CT> S{ pc_.p.get(), pc_.n }; ArmGuard ag_; CALL; } break; \
     case 'z': { const CT* S = (STR).c_str(); ArmGuard ag_; CALL; } break; \
     default:  { const auto& S = (STR); ArmGuard ag_; CALL; } break; \
     }
@@ -159,15 +177,30 @@ struct tight_copy {
 // two string arguments in the same encoding (forms: both as std::basic_string / view)
 #define WITH_STR2(T1, T2, S1, S2, CALL) do { const Tok& a_ = (T1); const Tok& b_ = (T2); \
     switch (a_.enc) { \
-    case 'h': if (a_.form == 'v') { const tight_copy<char16_t> t1_(a_.s16.data(), a_.s16.size()), t2_(b_.s16.data(), b_.s16.size()); const view_like<char16_t> S1{t1_.p.get(), t1_.n}; const view_like<char16_t> S2{t2_.p.get(), t2_.n}; ArmGuard ag_; CALL; } \
+    case 'h': if (a_.form == 'x') { const padded_copy<char16_t> t1_(a_.s16.data(), a_.s16.size()), t2_(b_.s16.data(), b_.s16.size()); const view_like<char16_t> S1{t1_.p.get(), t1_.n}; const view_like<char16_t> S2{t2_.p.get(), t2_.n}; ArmGuard ag_; CALL; } \
+              else if (a_.form == 'v') { const tight_copy<char16_t> t1_(a_.s16.data(), a_.s16.size()), t2_(b_.s16.data(), b_.s16.size()); const view_like<char16_t> S1{t1_.p.get(), t1_.n}; const view_like<char16_t> S2{t2_.p.get(), t2_.n}; ArmGuard ag_; CALL; } \
               else { const auto& S1 = a_.s16; const auto& S2 = b_.s16; ArmGuard ag_; CALL; } break; \
-    case 'w': if (a_.form == 'v') { const tight_copy<char32_t> t1_(a_.s32.data(), a_.s32.size()), t2_(b_.s32.data(), b_.s32.size()); const view_like<char32_t> S1{t1_.p.get(), t1_.n}; const view_like<char32_t> S2{t2_.p.get(), t2_.n}; ArmGuard ag_; CALL; } \
+    case 'w': if (a_.form == 'x') { const padded_copy<char32_t> t1_(a_.s32.data(), a_.s32.size()), t2_(b_.s32.data(), b_.s32.size()); const view_like<char32_t> S1{t1_.p.get(), t1_.n}; const view_like<char32_t> S2{t2_.p.get(), t2_.n}; ArmGuard ag_; CALL; } \
+              else if (a_.form == 'v') { const tight_copy<char32_t> t1_(a_.s32.data(), a_.s32.size()), t2_(b_.s32.data(), b_.s32.size()); const view_like<char32_t> S1{t1_.p.get(), t1_.n}; const view_like<char32_t> S2{t2_.p.get(), t2_.n}; ArmGuard ag_; CALL; } \
               else { const auto& S1 = a_.s32; const auto& S2 = b_.s32; ArmGuard ag_; CALL; } break; \
     case 'W': { const auto& S1 = a_.sw; const auto& S2 = b_.sw; ArmGuard ag_; CALL; } break; \
-    default:  if (a_.form == 'v') { const tight_copy<char> t1_(a_.s8.data(), a_.s8.size()), t2_(b_.s8.data(), b_.s8.size()); const view_like<char> S1{t1_.p.get(), t1_.n}; const view_like<char> S2{t2_.p.get(), t2_.n}; ArmGuard ag_; CALL; } \
+    default:  if (a_.form == 'x') { const padded_copy<char> t1_(a_.s8.data(), a_.s8.size()), t2_(b_.s8.data(), b_.s8.size()); const view_like<char> S1{t1_.p.get(), t1_.n}; const view_like<char> S2{t2_.p.get(), t2_.n}; ArmGuard ag_; CALL; } \
+              else if (a_.form == 'v') { const tight_copy<char> t1_(a_.s8.data(), a_.s8.size()), t2_(b_.s8.data(), b_.s8.size()); const view_like<char> S1{t1_.p.get(), t1_.n}; const view_like<char> S2{t2_.p.get(), t2_.n}; ArmGuard ag_; CALL; } \
               else if (a_.form == 'z' && !a_.has_nul && !b_.has_nul) { const char* S1 = a_.s8.c_str(); const char* S2 = b_.s8.c_str(); ArmGuard ag_; CALL; } \
               else { const auto& S1 = a_.s8; const auto& S2 = b_.s8; ArmGuard ag_; CALL; } break; \
     } } while (0)
+
+// pointer-pair argument for ipv4_parse / ipv6_parse / hostname_ends_in_a_number: exactly sized buffer, or (x form) the
+// front of a larger buffer with an adversarial follower
+template <class CharT, class F>
+static void with_range(const Tok& t, const CharT* s, std::size_t n, F f) {
+    if (t.form == 'x') { const padded_copy<CharT> pc(s, n); f(pc.p.get(), pc.p.get() + pc.n); }
+    else { const tight_copy<CharT> tc(s, n); f(tc.p.get(), tc.p.get() + tc.n); }
+}
+#define WITH_RANGE(T, F, L, CALL) switch ((T).enc) { \
+    case 'h': with_range((T), (T).s16.data(), (T).s16.size(), [&](const char16_t* F, const char16_t* L) { CALL; }); break; \
+    case 'w': with_range((T), (T).s32.data(), (T).s32.size(), [&](const char32_t* F, const char32_t* L) { CALL; }); break; \
+    default:  with_range((T), (T).s8.data(), (T).s8.size(), [&](const char* F, const char* L) { CALL; }); break; }
 
 // ---------------------------------------------------------------- output helpers
 static std::string hx(const char* p, std::size_t n) {
@@ -758,6 +791,19 @@ static std::string run_cmd(const std::vector<std::string>& a) {
             else WITH_STR(n, S, p->parse(S));
         } else if (op == "sort") ARM(p->sort());
         else if (op == "clear") ARM(p->clear());
+        else if (op == "remove_if_stateful") {
+            // usp_remove_if_stateful <k> <mode> <n>: mode 0 = "remove at most n pairs", mode 1 = "remove every second pair
+            // (starting with the first) until n are removed"; the predicate's state is shared by reference. Expected, per the
+            // Standard's "remove all items that match a condition": the predicate is asked once per pair, in list order.
+            if (a.size() < 4) return "ERR bad-arity";
+            const int mode = std::atoi(a[2].c_str()); const std::size_t nmax = sz_of(a[3]);
+            std::vector<std::pair<std::string, std::string>> before(p->begin(), p->end()), expect;
+            { std::size_t cnt = 0, idx = 0; for (const auto& kv : before) { const bool rm = mode == 0 ? cnt < nmax : (idx % 2 == 0 && cnt < nmax); ++idx; if (rm) ++cnt; else expect.push_back(kv); } }
+            std::size_t calls = 0, cnt = 0, idx = 0;
+            const std::size_t k = p->remove_if([&](const upa::url_search_params::value_type&) { ++calls; const bool rm = mode == 0 ? cnt < nmax : (idx % 2 == 0 && cnt < nmax); ++idx; if (rm) ++cnt; return rm; });
+            const std::vector<std::pair<std::string, std::string>> after(p->begin(), p->end());
+            const bool ok = after == expect && k == before.size() - expect.size() && calls == before.size();
+            extra << " removed=" << (before.size() - expect.size()) << " ok=" << (ok ? 1 : 0); }
         else if (op == "remove_if_empty_value") { const std::size_t k = p->remove_if([](const upa::url_search_params::value_type& kv) { return kv.second.empty(); }); extra << " removed=" << k; }
         else if (op == "assign" || op == "safe_assign" || op == "copyfrom") {
             // assign the standalone params object <k> to this params object
@@ -776,7 +822,7 @@ static std::string run_cmd(const std::vector<std::string>& a) {
     }
     // ---- leaf functions
     if (c == "ipv4") { need(1); Tok t; if (!parse_tok(a[1], t)) return "ERR"; uint32_t v = 0; validation_errc r = validation_errc::ok;
-        switch (t.enc) { case 'h': { const tight_copy<char16_t> tc(t.s16.data(), t.s16.size()); r = ipv4_parse(tc.p.get(), tc.p.get() + tc.n, v); } break; case 'w': { const tight_copy<char32_t> tc(t.s32.data(), t.s32.size()); r = ipv4_parse(tc.p.get(), tc.p.get() + tc.n, v); } break; default: { const tight_copy<char> tc(t.s8.data(), t.s8.size()); r = ipv4_parse(tc.p.get(), tc.p.get() + tc.n, v); } }
+        WITH_RANGE(t, F_, L_, r = ipv4_parse(F_, L_, v));
         if (r != validation_errc::ok) return "ipv4 fail"; std::string o; ipv4_serialize(v, o); return "ipv4 ok " + std::to_string(v) + " " + hx(o); }
     if (c == "ipv4ser") { need(1); const uint32_t v = static_cast<uint32_t>(std::strtoul(a[1].c_str(), nullptr, 10));
         static const char* const pre4[] = { "", "1", "9.", ".", "0x", "a" };
@@ -785,10 +831,10 @@ static std::string run_cmd(const std::vector<std::string>& a) {
         o.erase(0, prefix.size());
         uint32_t back = 0; const auto r = ipv4_parse(o.data(), o.data() + o.size(), back); return "ipv4ser " + hx(o) + " back=" + ((r == validation_errc::ok && back == v) ? "1" : "0"); }
     if (c == "endsnum") { need(1); Tok t; if (!parse_tok(a[1], t)) return "ERR"; bool r = false;
-        switch (t.enc) { case 'h': { const tight_copy<char16_t> tc(t.s16.data(), t.s16.size()); r = hostname_ends_in_a_number(tc.p.get(), tc.p.get() + tc.n); } break; case 'w': { const tight_copy<char32_t> tc(t.s32.data(), t.s32.size()); r = hostname_ends_in_a_number(tc.p.get(), tc.p.get() + tc.n); } break; default: { const tight_copy<char> tc(t.s8.data(), t.s8.size()); r = hostname_ends_in_a_number(tc.p.get(), tc.p.get() + tc.n); } }
+        WITH_RANGE(t, F_, L_, r = hostname_ends_in_a_number(F_, L_));
         return std::string("endsnum ") + (r ? "1" : "0"); }
     if (c == "ipv6") { need(1); Tok t; if (!parse_tok(a[1], t)) return "ERR"; uint16_t ad[8]; validation_errc r = validation_errc::ok;
-        switch (t.enc) { case 'h': { const tight_copy<char16_t> tc(t.s16.data(), t.s16.size()); r = ipv6_parse(tc.p.get(), tc.p.get() + tc.n, ad); } break; case 'w': { const tight_copy<char32_t> tc(t.s32.data(), t.s32.size()); r = ipv6_parse(tc.p.get(), tc.p.get() + tc.n, ad); } break; default: { const tight_copy<char> tc(t.s8.data(), t.s8.size()); r = ipv6_parse(tc.p.get(), tc.p.get() + tc.n, ad); } }
+        WITH_RANGE(t, F_, L_, r = ipv6_parse(F_, L_, ad));
         if (r != validation_errc::ok) return "ipv6 fail"; std::string o; ipv6_serialize(ad, o); std::ostringstream os; os << "ipv6 ok"; for (int i = 0; i < 8; ++i) os << " " << ad[i]; os << " " << hx(o); return os.str(); }
     if (c == "ipv6ser") { need(8); uint16_t ad[8]; unsigned sum = 0; for (int i = 0; i < 8; ++i) { ad[i] = static_cast<uint16_t>(std::strtoul(a[1 + i].c_str(), nullptr, 10)); sum += ad[i] + static_cast<unsigned>(i) * (ad[i] ? 1u : 0u); }
         // the serializer APPENDS to its output argument: what is already there must not matter
